@@ -256,4 +256,106 @@ Proof.
   apply in_app_iff in Hg as [Hg|Hg]; apply in_or_app; [left|right; right]; auto.
 Qed.
 
+Hint Resolve cp_e_add_to_file cp_e_remove_from_file cp_set_file_membership : cp.
+
+Lemma cp_m_remove_file m f : cp (m_remove_file T m f).
+Proof.
+  intros w r w' H C. unfold m_remove_file in H.
+  apply wbind_inv in H as [(x & w0 & H1 & H) | (e0 & H1 & _)]; [|apply get_model_inv in H1 as (? & _ & [=] & _)].
+  apply get_model_inv in H1 as (x' & Hx & [= <-] & ->).
+  destruct (index_of (N.eqb f) (m_files x)) as [pos|] eqn:Hpos.
+  2:{ apply wret_inv in H as (_ & ->). split; auto. apply PosRel_refl. }
+  apply wbind_inv in H as [(u & w1 & H1 & H) | (e0 & H1 & _)]; [|apply set_model_inv in H1 as ([=] & _)].
+  pose proof (stp_set_model_same m x (fun y => set_mfiles y (swap_remove_at (m_files y) pos)) (fun y => eq_refl) _ _ _ Hx H1) as ST.
+  apply set_model_inv in H1 as (_ & ->).
+  assert (Core (wmodels w (list_set (w_models w) (N.to_nat m) (set_mfiles x (swap_remove_at (m_files x) pos))))) as C1
+    by (eapply Core_same_tree; eauto).
+  assert (PosRel w (wmodels w (list_set (w_models w) (N.to_nat m) (set_mfiles x (swap_remove_at (m_files x) pos))))) as P1.
+  { apply (posrel_set_model w m x); auto. cbn. eapply swap_remove_incl; eauto. }
+  match type of H with ?mm ?wa = _ => assert (cp mm) as P end.
+  { destruct (is_empty _); [|cp_tac].
+    apply cp_bind; [cp_tac|]. intros rn.
+    apply cp_bind; [|intros _; apply cp_bind; [cp_tac|intros _; apply cp_modify_model_idx; intros y; split; reflexivity]].
+    induction (n_content rn) as [|[c|d] l IHl]; cp_tac. }
+  destruct (P _ _ _ H C1) as (C' & P2). split; auto. eapply PosRel_trans; eauto.
+Qed.
+
+Lemma km_kids_loop cur l : km (kids_loop cur l).
+Proof. induction l as [|[c|d] l IH]; cbn [kids_loop]; km_tac. Qed.
+
+Lemma km_atfr f : forall fuel e, km (add_to_file_restricted T fuel e f).
+Proof.
+  induction fuel as [|fl IH]; intros e; [intros w r w' H; discriminate|].
+  rewrite atfr_unfold. km_tac; try apply km_kids_loop; apply IH.
+Qed.
+
+Lemma owned_create_file m name version w r w' :
+  FilesOwned w -> m_create_file T m name version w = Val (r, w') -> FilesOwned w'.
+Proof.
+  intros O H. unfold m_create_file in H.
+  apply wbind_inv in H as [(x & w1 & H1 & H) | (e0 & H1 & _)]; [|apply get_model_inv in H1 as (? & _ & [=] & _)].
+  apply get_model_inv in H1 as (x' & Hx & [= <-] & ->).
+  apply wbind_inv in H as [(w0 & w1 & H1 & H) | (e0 & H1 & _)]; [|apply wget_inv in H1 as ([=] & _)].
+  apply wget_inv in H1 as ([= ->] & ->).
+  destruct (existsb _ (m_files x)); [apply wfail_inv in H as (_ & ->); exact O|].
+  set (fid := N.of_nat (List.length (w_files w))) in *.
+  apply wbind_inv in H as [(u & w1 & H1 & H) | (e0 & H1 & _)]; [|discriminate].
+  injection H1 as _ <-.
+  apply wbind_inv in H as [(u2 & w2 & H2 & H) | (e0 & H2 & _)]; [|apply modify_model_inv in H2 as (? & _ & [=] & _)].
+  apply modify_model_inv in H2 as (x0 & Hx0 & _ & ->). cbn in Hx0. assert (x0 = x) by congruence. subst x0.
+  match type of H with wbind wget _ ?W = _ => set (w2 := W) in * end.
+  apply wbind_inv in H as [(w0 & w3 & H3 & H) | (e0 & H3 & _)]; [|apply wget_inv in H3 as ([=] & _)].
+  apply wget_inv in H3 as ([= ->] & ->).
+  apply wbind_inv in H as [(o & w3 & H3 & H) | (e0 & H3 & _)]; [|apply wtry_inv in H3 as (? & _ & [=])].
+  apply wret_inv in H as (_ & Ew). subst w3. apply wtry_inv in H3 as (r0 & H3 & _).
+  destruct (km_atfr fid _ _ _ _ _ H3) as (M & F).
+  assert (forall g fl, nth_opt (w_files w) (N.to_nat g) = Some fl ->
+            nth_opt (w_files w ++ [mkFile m name version None]) (N.to_nat g) = Some fl) as Old.
+  { intros g fl Hg. rewrite nth_opt_error in *. rewrite nth_error_app1; auto. apply nth_error_Some. congruence. }
+  intros m' x' f' Hx' Hf'. unfold model_b in Hx'. rewrite M in Hx'. rewrite F. unfold w2 in *. cbn in Hx' |- *.
+  rewrite nth_opt_error in Hx'. rewrite nth_error_list_set in Hx'. rewrite <- !nth_opt_error in Hx'.
+  destruct (Nat.eqb (N.to_nat m') (N.to_nat m)) eqn:E.
+  - apply Nat.eqb_eq in E. apply Nnat.N2Nat.inj in E. subst m'. rewrite Hx in Hx'. injection Hx' as <-. cbn in Hf'.
+    apply in_app_iff in Hf' as [Hf'|[<-|[]]].
+    + destruct (O m x f' Hx Hf') as (fl & Hfl & Hm). exists fl. split; auto.
+    + exists (mkFile m name version None). split; auto. unfold fid. rewrite Nnat.Nat2N.id, nth_opt_error.
+      rewrite nth_error_app2 by lia. rewrite Nat.sub_diag. reflexivity.
+  - destruct (O m' x' f' Hx' Hf') as (fl & Hfl & Hm). exists fl. split; auto.
+Qed.
+
+(* moves: the model list keeps roots and file lists position by position *)
+Lemma moverel_pos mv w w' : MoveRel mv w w' -> PosRel w w'.
+Proof.
+  intros R. split; [apply (mr_files _ _ _ R)|]. intros m x' Hx'. left. unfold model_b in *. rewrite nth_opt_error in *.
+  assert (nth_error (map mview (w_models w')) (N.to_nat m) = Some (mview x')) as H1 by (rewrite nth_error_map, Hx'; reflexivity).
+  rewrite (mr_models _ _ _ R), nth_error_map in H1.
+  destruct (nth_error (w_models w) (N.to_nat m)) as [x|] eqn:E; [|discriminate]. cbn in H1.
+  assert (m_files x = m_files x') as Ef by (unfold mview in H1; congruence).
+  exists x. split; auto. rewrite Ef. apply incl_refl.
+Qed.
+
+Let run := run_op T tab_el tab_en check_fn LATEST root_attrs.
+Hypothesis core_step : CoreStep T tab_el tab_en check_fn LATEST root_attrs.
+
+(* every operation preserves FilesOwned *)
+Theorem owned_step o w r w' : Core w -> FilesOwned w -> run o w = Val (r, w') -> FilesOwned w'.
+Proof.
+  intros C O H. assert (Core w') as C' by (eapply core_step; eauto).
+  destruct (frame_op o) eqn:Efo.
+  - destruct (ff_run T tab_el tab_en check_fn LATEST root_attrs o Efo _ _ _ (core_fresh _ C) H) as (F & _).
+    eapply owned_posrel; eauto. apply frame_pos; auto.
+  - destruct o; cbn [frame_op] in Efo; try discriminate; unfold run in H; cbn [run_op] in H.
+    + unfold welem in H. apply run_bind_inv in H as (r0 & H).
+      eapply owned_posrel; eauto. eapply moverel_pos. eapply mr_e_move_element_here; eauto.
+    + unfold welem in H. apply run_bind_inv in H as (r0 & H).
+      eapply owned_posrel; eauto. eapply moverel_pos. eapply mr_e_move_element_here_at; eauto.
+    + apply run_bind_inv in H as (r0 & H). eapply owned_create_file; eauto.
+    + unfold wunit in H. apply run_bind_inv in H as (r0 & H).
+      destruct (cp_m_remove_file _ _ _ _ _ H C) as (_ & P). eapply owned_posrel; eauto.
+    + unfold wunit in H. apply run_bind_inv in H as (r0 & H).
+      destruct (cp_e_add_to_file _ _ _ _ _ H C) as (_ & P). eapply owned_posrel; eauto.
+    + unfold wunit in H. apply run_bind_inv in H as (r0 & H).
+      destruct (cp_e_remove_from_file _ _ _ _ _ H C) as (_ & P). eapply owned_posrel; eauto.
+Qed.
+
 End Owned.
